@@ -42,6 +42,16 @@ func (c *Conversation) retransmitAfterCompletedExchange(wasIdle bool, err error)
 		return nil
 	}
 	toSend, _ := c.maybeRetransmit()
+	if len(toSend) == 0 && len(c.keys.oldMACKeys) > 0 {
+		// MAC keys carried over from the session this exchange has replaced must not wait until the
+		// user says something (the queue would grow with every further key exchange): if nothing
+		// else goes out, an empty data message reveals them right away
+		if dataMsg, _, e := c.genDataMsgWithFlag(nil, messageFlagIgnoreUnreadable); e == nil {
+			if m, e := c.wrapMessageHeader(msgTypeData, dataMsg.serialize(c.version)); e == nil {
+				toSend = append(toSend, m)
+			}
+		}
+	}
 	return toSend
 }
 
